@@ -91,10 +91,18 @@ def incidence(net):
                 inc.append(("valve", idx, ("j", int(ju)), key))
             else:
                 inc.append(("valve", idx, ("j", int(ju)), ("j", int(el))))
-    for t in BRANCH_TABLES:
+    tables = dict(FROM_TO)
+    try:   # components added by users / converters (e.g. the STANET valve_pipe) are branch components too
+        from pandapipes.component_models.abstract_models.branch_models import BranchComponent
+        for comp in net.component_list:
+            if issubclass(comp, BranchComponent) and comp.table_name() not in tables:
+                tables[comp.table_name()] = tuple(comp.from_to_node_cols())
+    except Exception:
+        pass
+    for t in list(BRANCH_TABLES) + [x for x in tables if x not in BRANCH_TABLES]:
         if t == "valve" or not has(net, t):
             continue
-        fc, tc = FROM_TO[t]
+        fc, tc = tables[t]
         for idx, f, to in zip(net[t].index, net[t][fc].values, net[t][tc].values):
             fk, tk = ("j", int(f)), ("j", int(to))
             if t == "pipe":
@@ -188,7 +196,7 @@ def mon_c01(net, obs, final_alpha=1.0, tol_m=1e-5):
 # C02 momentum law per flowing branch
 # ------------------------------------------------------------------------------------------------
 
-def _pit_sections(net, pipe_label):
+def _pit_sections(net, pipe_label, thermal=False):
     """Section rows of one pipe from the solver's internal table (only used for interior nodes of
     multi-section pipes, which no public result table exposes for arbitrary index labels)."""
     from pandapipes.idx_branch import ELEMENT_IDX, FROM_NODE, TO_NODE, MDOTINIT, TOUTINIT, TABLE_IDX
@@ -201,7 +209,9 @@ def _pit_sections(net, pipe_label):
     out = []
     for r in rows:
         fn, tn = int(r[FROM_NODE]), int(r[TO_NODE])
-        out.append(dict(p1=float(npit[fn, PINIT]), p2=float(npit[tn, PINIT]), t1=float(npit[fn, TINIT]),
+        # with a thermal calculation the fluid enters a reverse-flow section at its to-node: inlet temperature = upstream node
+        up = tn if (thermal and float(r[MDOTINIT]) < 0) else fn
+        out.append(dict(p1=float(npit[fn, PINIT]), p2=float(npit[tn, PINIT]), t1=float(npit[up, TINIT]),
                         t2=float(r[TOUTINIT]), mdot=float(r[MDOTINIT])))
     return out
 
@@ -224,6 +234,7 @@ def mon_c02(net, obs, opts):
     model = opts.get("friction_model", "nikuradse")
     tol_p, tol_m = opts.get("tol_p", 1e-5), opts.get("tol_m", 1e-5)
     tol_res = opts.get("tol_res", 1e-3)
+    thermal = opts.get("mode", "hydraulics") in ("sequential", "bidirectional", "heat")
     tight = tol_p <= 1e-8 and tol_m <= 1e-8 and tol_res <= 1e-8
     cb_tol = opts.get("tolerance_colebrook", 1e-4) if model == "colebrook" else 0.0
     pj = net.res_junction.p_bar
@@ -299,10 +310,11 @@ def mon_c02(net, obs, opts):
             zeta = float(P.at[idx, "loss_coefficient"])
             h1, h2 = float(hj.at[fj]), float(hj.at[tj])
             if n == 1:
+                t_in = float(R.at[idx, "t_to_k"]) if (thermal and m_from < 0) else float(R.at[idx, "t_from_k"])
                 secs = [dict(p1=float(R.at[idx, "p_from_bar"]), p2=float(R.at[idx, "p_to_bar"]),
-                             t1=float(R.at[idx, "t_from_k"]), t2=float(R.at[idx, "t_outlet_k"]), mdot=m_from)]
+                             t1=t_in, t2=float(R.at[idx, "t_outlet_k"]), mdot=m_from)]
             else:
-                secs = _pit_sections(net, idx)
+                secs = _pit_sections(net, idx, thermal)
                 if len(secs) != n:
                     obs.violate("pipe_section_count", "%s has %d pit sections, table says %d" % (el, len(secs), n))
                     continue
@@ -390,8 +402,9 @@ def mon_c02(net, obs, opts):
             h2 = float(hj.at[tk[1]]) if tk[0] == "j" else h1
             d = float(T.at[idx, "inner_diameter_mm"]) / 1000.0
             zeta = float(T.at[idx, "loss_coefficient"])
+            t_in = float(R.at[idx, "t_to_k"]) if (thermal and m < 0 and tk[0] == "j") else float(R.at[idx, "t_from_k"])
             re, lam, rho, p1, p2 = check_section(el, m, float(R.at[idx, "p_from_bar"]), float(R.at[idx, "p_to_bar"]),
-                                                 h1, h2, float(R.at[idx, "t_from_k"]), float(R.at[idx, "t_outlet_k"]),
+                                                 h1, h2, t_in, float(R.at[idx, "t_outlet_k"]),
                                                  d, 0.0, 1e-3, zeta, want_lambda=False)
             obs.count("law_" + t)
             if fk[0] == "j":
